@@ -346,7 +346,7 @@ FOR_LOOP:
 			// routine.
 
 			// See if there are any blocks to sync.
-			first, second := bcR.pool.PeekTwoBlocks()
+			first, second, firstPeerID, secondPeerID := bcR.pool.PeekTwoBlocksAndPeers()
 			// bcR.Logger.Info("TrySync peeked", "first", first, "second", second)
 			if first == nil || second == nil {
 				// We need both to sync the first block.
@@ -375,15 +375,21 @@ FOR_LOOP:
 
 			if err != nil {
 				bcR.Logger.Error("Error in validation", "err", err)
-				peerID := bcR.pool.RedoRequest(first.Height)
-				peer := bcR.Switch.Peers().Get(peerID)
+				// Hold the peers responsible that the two blocks came from, not
+				// whoever the two requests are assigned to by now: if a sender
+				// has been removed since we peeked (e.g. it hung up while we
+				// were verifying), its requests already belong to peers that
+				// have not sent us anything. Removing a peer from the pool
+				// redoes all of its requests.
+				bcR.pool.RemovePeer(firstPeerID)
+				peer := bcR.Switch.Peers().Get(firstPeerID)
 				if peer != nil {
 					// NOTE: we've already removed the peer's request, but we
 					// still need to clean up the rest.
 					bcR.Switch.StopPeerForError(peer, fmt.Errorf("blockchainReactor validation error: %v", err))
 				}
-				peerID2 := bcR.pool.RedoRequest(second.Height)
-				peer2 := bcR.Switch.Peers().Get(peerID2)
+				bcR.pool.RemovePeer(secondPeerID)
+				peer2 := bcR.Switch.Peers().Get(secondPeerID)
 				if peer2 != nil && peer2 != peer {
 					// NOTE: we've already removed the peer's request, but we
 					// still need to clean up the rest.
